@@ -156,7 +156,7 @@ def cut_case(rng, kind="mlp", adaptive=False):
     """oracle scenario: ops1 | save → fresh → load | ops2"""
     mech = rng.choice(MECHS)
     cfg = {
-        "mech": mech, "opt": rng.choice(["sgdm", "adam"]),
+        "mech": mech, "opt": rng.choice(["sgdm", "adam", "sgd"]), "lrdecay": rng.choice([None, 0.5, 0.8]),
         "sigma0": rng.choice([0.6, 1.0, 1.3, 2.0]), "c0": rng.choice([0.5, 1.0, 2.0]),
         "nb": rng.choice([7, 10, 16]),
         "ns": ("none",) if mech == "gdp" else gen_spec(rng),
